@@ -48,7 +48,10 @@ def layouts(draw, max_frames=10):
                 late=draw(st.sampled_from([0, 0, 0, 1, 2, 3, 5])),
                 storages=draw(st.one_of(st.none(), st.lists(st.sampled_from(["f8", "f4", "p1", "p2", "p3"]),
                                                             min_size=2, max_size=4))),
-                mask=draw(st.sampled_from(["none", "islands"])), h=draw(st.sampled_from(["flat", "noise"])))
+                mask=draw(st.sampled_from(["none", "islands"])), h=draw(st.sampled_from(["flat", "noise"])),
+                # which look-ahead fractions are asked for in every step, in this order (EF none beyond the step
+                # itself, RK2 one half, RK4 one half twice and a whole; a plug-in any fixed fraction)
+                fracs=draw(st.sampled_from([[0.5, 1.0], [0.5, 1.0], [0.5], [1.0], [0.5, 0.5, 1.0], [0.25], [0.75, 0.75]])))
 
 
 def setup(d, case):
@@ -111,6 +114,7 @@ def oracle(case) -> core.CaseResult:
     res.cls("gap1_present" if 1 in gaps else "no_gap1")
     res.cls("all_gap1" if set(gaps) == {1} else ("equal_gaps" if len(set(gaps)) == 1 else "irregular"))
     res.cls("reversed" if case["reverse"] else "forward")
+    res.cls("look_ahead_pattern_" + "_".join(str(f) for f in case.get("fracs", (0.5, 1.0))))
     res.cls("multi_file" if len(case["partition"]) > 1 else "single_file")
     if case.get("storages") and len(case["partition"]) > 1 and len(set(case["storages"][:len(case["partition"])])) > 1:
         res.cls("files_stored_differently")
@@ -204,7 +208,7 @@ def oracle(case) -> core.CaseResult:
             vu, vv = force.variables["u"], force.variables["v"]
             res.check(max(np.max(np.abs(vu - wantU)), np.max(np.abs(vv - wantV))) <= tol, "variables_uv",
                       f"step {n}: forcing.variables u/v differ from the interpolated field")
-            for f in (0.5, 1.0):
+            for f in case.get("fracs", (0.5, 1.0)):
                 pf = p + f
                 if pf > total:
                     continue
